@@ -199,11 +199,18 @@ class EventReplayer:
     ) -> WorkflowState:
         """Load WorkflowState from a snapshot."""
         state_dict = snapshot.state
+
+        def _ts(value: str | None) -> datetime | None:
+            # WorkflowState.to_dict() stores the two workflow timestamps as ISO strings
+            return datetime.fromisoformat(value) if value else None
+
         return WorkflowState(
             workflow_id=snapshot.entity_id,
             status=state_dict.get("status"),
             application=state_dict.get("application"),
             name=state_dict.get("name"),
+            start_time=_ts(state_dict.get("start_time")),
+            end_time=_ts(state_dict.get("end_time")),
             context=state_dict.get("context", {}),
             stages=state_dict.get("stages", {}),
             tasks=state_dict.get("tasks", {}),
